@@ -58,6 +58,7 @@ func init() {
 	reviewed("interpreter|ast.PredicateSym|collect|ast.PredicateSym", "display only: the listing of Show is sorted by symbol, Define prints a 'defined ...' message", false)
 	reviewed("interpreter|ast.PredicateSym|collect|string", "display only: did-you-mean message of Show", false)
 	reviewed("interpreter|ast.PredicateSym|first-match|", "a bare predicate name that is known with two arities picks one of them: interactive convenience, the query result for the chosen arity is exact (ParseQuery, Show)", false)
+	reviewed("ast|*ast.Constant|collect|*ast.Constant,*ast.Constant", "keys and values of a map or struct constant under construction: SortIndexInto puts the entries into canonical order (key hash, then printed form) before the constant is built; one constant for every supply order is evaluated under C08's map-struct-supply-order (ast.Map, ast.Struct)", false)
 	reviewed("provenance|string|collect|ast.Variable", "extractBindings sorts the bindings by variable name (collectVars)", false)
 }
 
